@@ -6,15 +6,25 @@ From Coq Require Import ZArith List.
 Import ListNotations.
 Open Scope Z_scope.
 
-(* an accepted transaction paid in base coin adds gas price x (its type's price + (payload + service
-   data bytes) x byte price) to the block's reward pool, less the ticker fee of a coin creation,
-   which is moved from the reward pool to the zero address *)
+(* base-coin price table: an accepted transaction paid in base coin adds gas price x (its type's price
+   + (payload + service data bytes) x byte price) to the block's reward pool, less the ticker fee of a
+   coin creation, which is moved from the reward pool to the zero address *)
 Theorem C27_fee_formula : forall s t s',
-  deliver s t = (s', 0) -> t_gas_coin t = 0 ->
+  deliver s t = (s', 0) -> t_gas_coin t = 0 -> p_pcoin (s_prices s) = 0 ->
   s_rpool s' = s_rpool s
                + t_gas_price t * (type_price (s_prices s) (t_data t) + (t_payload_len t + t_service_len t) * p_payload_byte (s_prices s))
                - burn_of s t.
 Proof. exact accept_fee_base. Qed.
+
+(* price table denominated in a custom coin: the table price gas price x (type price + bytes x byte price)
+   is converted through the pool of that coin as ONE amount, and that converted amount reaches the
+   reward pool *)
+Theorem C27_fee_converted_through_pool : forall s t s',
+  deliver s t = (s', 0) -> t_gas_coin t = 0 ->
+  t_gas_price t * (type_price (s_prices s) (t_data t) + (t_payload_len t + t_service_len t) * p_payload_byte (s_prices s)) <> 0 ->
+  exists v, base_of (s_prices s) (t_gas_price t * (type_price (s_prices s) (t_data t) + (t_payload_len t + t_service_len t) * p_payload_byte (s_prices s))) = inl v
+            /\ 0 < v /\ s_rpool s' = s_rpool s + v - burn_of s t.
+Proof. intros s t s' HD Hg Hne. exact (accept_fee_converted s t s' HD Hg Hne). Qed.
 
 Theorem C27_ticker_fee_burned : forall s t s' effs,
   deliver s t = (s', 0) -> run s t = inr effs ->
@@ -33,14 +43,24 @@ Proof. intros. repeat split. Qed.
 
 (* a rejected transaction pays the failed-transaction price instead, capped by the balance (C03) *)
 Theorem C27_failed_fee : forall s t s' c,
-  deliver s t = (s', c) -> c <> 0 -> t_gas_coin t = 0 -> 0 <= failed_price (s_prices s) t ->
+  deliver s t = (s', c) -> c <> 0 -> t_gas_coin t = 0 -> p_pcoin (s_prices s) = 0 -> 0 <= failed_price (s_prices s) t ->
   0 <= s_rpool s' - s_rpool s <= t_gas_price t * (p_failed (s_prices s) + (t_payload_len t + t_service_len t) * p_payload_byte (s_prices s)).
 Proof.
-  intros s t s' c HD Hc Hg Hfp. destruct (reject_frame _ _ _ _ HD Hc) as (_ & payer & fee & _ & HF & -> & _).
-  destruct (Z.eq_dec fee 0) as [->|Hfee]; [unfold failed_price, data_len in Hfp; lia|].
-  destruct (HF Hfee) as (com & EC & Hb & ->). unfold calc_commission in EC. rewrite Hg in EC. cbn in EC. injection EC as <-.
-  unfold failed_price, data_len in *. lia.
+  intros s t s' c HD Hc Hg Hp Hfp. destruct (reject_frame _ _ _ _ HD Hc) as (_ & payer & fee & _ & HF & -> & _).
+  assert (E : failed_price (s_prices s) t = t_gas_price t * (p_failed (s_prices s) + (t_payload_len t + t_service_len t) * p_payload_byte (s_prices s)))
+    by (unfold failed_price, failed_price_r, failed_table, data_len; rewrite Hp; reflexivity).
+  destruct (Z.eq_dec fee 0) as [->|Hfee]; [lia|].
+  destruct (HF Hfee) as (com & EC & Hb & ->). unfold calc_commission in EC. rewrite Hg in EC. cbn in EC. injection EC as <-. lia.
 Qed.
+
+(* a price table in coin 1 with pool reserves 2000 (coin 1) : 1000000 (base): the converted fee of gas
+   price 3 is NOT three times the converted fee of gas price 1 (the pool is not linear) *)
+Example C27_example_custom_price_coin :
+  let p := {| p_payload_byte := 0; p_send := 10; p_multisend_base := 0; p_multisend_delta := 0; p_ticker3 := 0; p_ticker4 := 0; p_ticker5 := 0;
+              p_ticker6 := 0; p_ticker7 := 0; p_create_token := 0; p_recreate_token := 0; p_mint := 0; p_burn := 0; p_lock := 0; p_redeem := 0;
+              p_create_multisig := 0; p_edit_owner := 0; p_failed := 1; p_pcoin := 1; p_prc := 2000; p_prb := 1000000 |} in
+  base_of p 10 = inl 4470 /\ base_of p 30 = inl 14264 /\ 3 * 4470 <> 14264.
+Proof. vm_compute. repeat split; discriminate. Qed.
 
 Example C27_example :
   s_rpool (fst (deliver ex_state ex_send)) = 10 + 3 * 2 /\
@@ -50,6 +70,7 @@ Example C27_example :
 Proof. vm_compute. repeat split. Qed.
 
 Print Assumptions C27_fee_formula.
+Print Assumptions C27_fee_converted_through_pool.
 Print Assumptions C27_ticker_fee_burned.
 Print Assumptions C27_type_prices.
 Print Assumptions C27_failed_fee.
